@@ -1,4 +1,5 @@
 """Worker-side recorder: counts, distinct non-trivial cases, violations (classified at record time)."""
+import os
 import hashlib
 import json
 from collections import Counter
@@ -63,6 +64,8 @@ class Rec:
 
     def violation(self, kind, case, detail=""):
         """case: JSON-able dict that replays the case; kind: short mechanism-free clause name."""
+        if isinstance(case, dict) and "hashseed" not in case:
+            case = dict(case, _hashseed=os.environ.get("PYTHONHASHSEED", "0"))
         v = {"property": self.prop, "kind": kind, "case": case, "detail": str(detail)[:1500]}
         k = findings.classify(v, self._known_entries)
         if k is not None:
